@@ -237,6 +237,11 @@ func (c *rootCtx) walk(v ssa.Value, out RootSet, depth int) {
 		out.add(Root{K: RUnknown, N: "depth"})
 		return
 	}
+	if c.mode == modeAlias && !pointerLike(v.Type()) {
+		if _, isAddr := v.(*ssa.Alloc); !isAddr {
+			return // a plain value (string, number, empty struct): nothing can be mutated through it
+		}
+	}
 	switch x := v.(type) {
 	case *ssa.Parameter:
 		for i, q := range x.Parent().Params {
@@ -256,6 +261,9 @@ func (c *rootCtx) walk(v ssa.Value, out RootSet, depth int) {
 		// no roots
 	case *ssa.Alloc:
 		out.add(Root{K: RFresh, V: x})
+		// deriv mode: everything stored into it. Alias mode keeps object identity only: the content of a
+		// fresh wrapper (e.g. the shared context table held by a new checker) is NOT tracked here; the
+		// rules that need it (C09.IMM, C10.IMM, C10.COW) use the FLOW engine on the mutated object instead.
 		if c.mode == modeDeriv {
 			c.storedInto(x, out, depth)
 		}
@@ -394,21 +402,22 @@ func (c *rootCtx) load(a ssa.Value, out RootSet, depth int) {
 
 // storedInto: values stored into (fields of) a local allocation (deriv mode).
 func (c *rootCtx) storedInto(a *ssa.Alloc, out RootSet, depth int) {
+	keep := func(v ssa.Value) bool { return c.mode == modeDeriv || pointerLike(v.Type()) }
 	for _, ref := range *a.Referrers() {
 		switch r := ref.(type) {
 		case *ssa.Store:
-			if r.Addr == a {
+			if r.Addr == a && keep(r.Val) {
 				c.walk(r.Val, out, depth+1)
 			}
 		case *ssa.FieldAddr:
 			for _, r2 := range *r.Referrers() {
-				if s, ok := r2.(*ssa.Store); ok && s.Addr == r {
+				if s, ok := r2.(*ssa.Store); ok && s.Addr == r && keep(s.Val) {
 					c.walk(s.Val, out, depth+1)
 				}
 			}
 		case *ssa.IndexAddr:
 			for _, r2 := range *r.Referrers() {
-				if s, ok := r2.(*ssa.Store); ok && s.Addr == r {
+				if s, ok := r2.(*ssa.Store); ok && s.Addr == r && keep(s.Val) {
 					c.walk(s.Val, out, depth+1)
 				}
 			}
@@ -587,6 +596,9 @@ func (o *Own) analyze(f *ssa.Function) bool {
 					changed = true
 				}
 			case *ssa.MapUpdate:
+				if o.isPrivateCopy(f, x.Map, x) {
+					continue // copy-on-write: the map was replaced by a private copy first (C10.COW checks the protocol)
+				}
 				if o.addMut(f, o.roots(f, x.Map, modeAlias), x.Pos()) {
 					changed = true
 				}
@@ -745,6 +757,110 @@ func (o *Own) analyzeCall(f *ssa.Function, site ssa.CallInstruction) bool {
 		}
 	}
 	return changed
+}
+
+// cowFuncs: functions that replace a shared table held in a field by a private copy before it is
+// written (the protocol itself is checked by rule C10.COW). Value: the field made private.
+var cowFuncs = map[string]string{
+	"(*ExprSemanticsChecker).ensureVarsCopied":      "ExprSemanticsChecker.vars",
+	"(*ExprSemanticsChecker).ensureGithubVarCopied": "ExprSemanticsChecker.vars",
+}
+
+// isPrivateCopy: the written map is (reached through) a field that a dominating call made private.
+func (o *Own) isPrivateCopy(f *ssa.Function, m ssa.Value, at ssa.Instruction) bool {
+	// find a FieldAddr load on the path from m
+	var base ssa.Value
+	field := ""
+	v := m
+	for i := 0; i < 12 && v != nil; i++ {
+		switch x := v.(type) {
+		case *ssa.UnOp:
+			if fa, ok := x.X.(*ssa.FieldAddr); ok {
+				if n := fieldAddrName(fa); n == "ExprSemanticsChecker.vars" {
+					base, field = fa.X, n
+				}
+				v = fa.X
+				continue
+			}
+			v = x.X
+		case *ssa.FieldAddr:
+			v = x.X
+		case *ssa.TypeAssert:
+			v = x.X
+		case *ssa.Lookup:
+			v = x.X
+		case *ssa.Extract:
+			v = x.Tuple
+		default:
+			v = nil
+		}
+		if base != nil {
+			break
+		}
+	}
+	if base == nil {
+		return false
+	}
+	if FuncName(f) == "(*ExprSemanticsChecker).ensureVarsCopied" || FuncName(f) == "(*ExprSemanticsChecker).ensureGithubVarCopied" {
+		return true // the copy functions themselves install / write the fresh copy
+	}
+	ab, ai := at.Block(), instrIndex(at)
+	for _, ref := range *base.Referrers() {
+		call, ok := ref.(ssa.CallInstruction)
+		if !ok {
+			continue
+		}
+		g := staticCallee(call.Common())
+		if g == nil || cowFuncs[FuncName(g)] != field {
+			// a callee that itself starts with the copy (e.g. UpdateInputs called from UpdateDispatchInputs)
+			if g == nil || !o.alwaysCopiesFirst(g) {
+				continue
+			}
+		}
+		if instrDominates(call.Block(), instrIndex(call), ab, ai) {
+			return true
+		}
+	}
+	return false
+}
+
+// alwaysCopiesFirst: the first call in g's entry block, on its receiver, is a copy function.
+func (o *Own) alwaysCopiesFirst(g *ssa.Function) bool {
+	if g.Blocks == nil || len(g.Params) == 0 {
+		return false
+	}
+	for _, in := range g.Blocks[0].Instrs {
+		if call, ok := in.(ssa.CallInstruction); ok {
+			h := staticCallee(call.Common())
+			if h != nil && cowFuncs[FuncName(h)] != "" && len(call.Common().Args) > 0 && call.Common().Args[0] == g.Params[0] {
+				return true
+			}
+			if h != nil && h != g && len(call.Common().Args) > 0 && call.Common().Args[0] == g.Params[0] && o.alwaysCopiesFirstDepth(h, 0) {
+				return true
+			}
+			return false
+		}
+	}
+	return false
+}
+
+func (o *Own) alwaysCopiesFirstDepth(g *ssa.Function, d int) bool {
+	if d > 3 {
+		return false
+	}
+	if g.Blocks == nil || len(g.Params) == 0 {
+		return false
+	}
+	for _, in := range g.Blocks[0].Instrs {
+		if call, ok := in.(ssa.CallInstruction); ok {
+			h := staticCallee(call.Common())
+			if h != nil && cowFuncs[FuncName(h)] != "" && len(call.Common().Args) > 0 && call.Common().Args[0] == g.Params[0] {
+				return true
+			}
+			return false
+		}
+	}
+	return false
 }
 
 // diagRoots: derivation roots of a diagnostic position argument.
